@@ -156,6 +156,7 @@ def boundary_corpus():
     for name in sorted(stdvals.EXCEPTIONS):
         out.append(std('exc', name, []))
         out.append(std('exc', name, [T('message'), I(2)]))
+        out.append(std('exc', name, [['float', 'inf'], ['list', [I(1), I(2), I(3)]]]))
     for ename, cls in sorted(stdvals.ENUMS.items()):
         for member in cls.__members__:
             out.append(std('enum', ename, member))
